@@ -2044,3 +2044,120 @@ Proof.
     + rewrite Hb, Er, <- !app_assoc. reflexivity.
     + rewrite !bytes_app. lia.
 Qed.
+
+(** ** Names *)
+
+Lemma name_matches_in_words : forall w l, name_matches w l = in_words w l.
+Proof.
+  intros w. induction l as [|s l IH]; [reflexivity|]. simpl. unfold eq_ignore_ascii_case.
+  destruct (ieq w (str s)); [reflexivity|exact IH].
+Qed.
+
+Definition flatten (es : list entry) : list (string * cname) :=
+  flat_map (fun e => map (fun s => (s, e_name e)) (candidates e)) es.
+
+Lemma lookup_entry : forall w name cands rest,
+  lookup w (map (fun s => (s, name)) cands ++ rest) =
+  if name_matches w cands then Some name else lookup w rest.
+Proof.
+  intros w name. induction cands as [|s cands IH]; intros rest; [reflexivity|].
+  simpl. unfold eq_ignore_ascii_case. destruct (ieq w (str s)); [reflexivity|apply IH].
+Qed.
+
+Lemma find_candidate_lookup : forall w es, find_candidate w es = lookup w (flatten es).
+Proof.
+  intros w. induction es as [|e es IH]; [reflexivity|].
+  simpl. rewrite lookup_entry. destruct (name_matches w (candidates e)); [reflexivity|exact IH].
+Qed.
+
+Lemma flatten_commands : flatten COMMANDS = word_table.
+Proof. reflexivity. Qed.
+Lemma flatten_step : flatten SUBCOMMANDS_STEP = step_table.
+Proof. reflexivity. Qed.
+Lemma flatten_break : flatten SUBCOMMANDS_BREAK = break_table.
+Proof. reflexivity. Qed.
+
+(** No two keys of a table are equal up to letter case, so the order of a table is immaterial. *)
+Fixpoint keys_distinct (keys : list string) : bool :=
+  match keys with
+  | [] => true
+  | k :: r => negb (existsb (fun k' => ieq (str k) (str k')) r) && keys_distinct r
+  end.
+
+Lemma tables_keys_distinct :
+  keys_distinct (map fst word_table ++ step_words ++ break_words) = true /\
+  keys_distinct (map fst step_table) = true /\ keys_distinct (map fst break_table) = true.
+Proof. vm_compute. repeat split; reflexivity. Qed.
+
+Lemma NameSyn_functional : forall ws c n c' n', NameSyn ws c n -> NameSyn ws c' n' -> c = c' /\ n = n'.
+Proof.
+  intros ws c n c' n' H H'.
+  inversion H; subst; inversion H'; subst; try congruence; split; congruence.
+Qed.
+
+Lemma find_name_match_inl : forall w es c,
+  find_name_match w es = inl c <-> lookup w (flatten es) = Some c.
+Proof.
+  intros w es c. unfold find_name_match. rewrite find_candidate_lookup.
+  destruct (lookup w (flatten es)); split; intros H; inversion H; reflexivity.
+Qed.
+
+(** The command name of a line, and the text that remains after it. *)
+Lemma get_command_name_spec : forall line, nodelim line ->
+  match get_command_name (arguments_from line) with
+  | Ok (c, a') => exists n r', NameSyn (words line) c n /\ Stream a' r' /\ arg_count a' = 0 /\
+                               words r' = skipn n (words line) /\ (n = 1%nat -> r' = after_word line)
+  | _ => forall c n, ~ NameSyn (words line) c n
+  end.
+Proof.
+  intros line Hn. unfold get_command_name. simpl cursor. change (0 =? 0) with true. simpl negb. cbv iota.
+  assert (Hs0 : Stream (arguments_from line) line).
+  { split; [exact Hn|]. exists []. split; reflexivity. }
+  pose proof (next_token_stream cerr _ _ Hs0) as Ht.
+  destruct (words line) as [|w ws] eqn:Ew.
+  { rewrite Ht. simpl. intros c n H. inversion H. }
+  destruct Ht as (a1 & -> & Hs1 & Ew1 & Hc1). simpl bind. cbv iota beta.
+  assert (Hc10 : arg_count a1 = 0) by (rewrite Hc1; reflexivity).
+  pose proof (next_token_stream cerr _ _ Hs1) as Ht2. rewrite Ew1 in Ht2.
+  unfold name_matches_with_subcommand at 1. rewrite name_matches_in_words.
+  change COMMAND_STEP with step_words.
+  destruct (in_words w step_words) eqn:Estep; simpl negb; cbv iota.
+  - (* step ... *)
+    destruct ws as [|w2 ws'].
+    + rewrite Ht2. simpl. exists 1%nat, (after_word line).
+      split; [apply Name_step; exact Estep|]. split; [exact Hs1|]. split; [exact Hc10|]. split; [exact Ew1|reflexivity].
+    + destruct Ht2 as (a2 & -> & Hs2 & Ew2 & Hc2). simpl bind. cbv iota beta.
+      destruct (find_name_match w2 SUBCOMMANDS_STEP) as [c|sug] eqn:Ef.
+      * apply find_name_match_inl in Ef. rewrite flatten_step in Ef. simpl.
+        exists 2%nat, (after_word (after_word line)).
+        split; [apply Name_step_sub; assumption|]. split; [exact Hs2|]. split; [lia|]. split; [exact Ew2|].
+        intros Hx; discriminate.
+      * simpl. intros c n H. inversion H; subst; try congruence.
+        assert (Hx : find_name_match w2 SUBCOMMANDS_STEP = inl c) by (apply find_name_match_inl; rewrite flatten_step; assumption).
+        congruence.
+  - (* not step *)
+    simpl bind. cbv iota beta.
+    unfold name_matches_with_subcommand. rewrite name_matches_in_words. change COMMAND_BREAK with break_words.
+    destruct (in_words w break_words) eqn:Ebreak; simpl negb; cbv iota.
+    + destruct ws as [|w2 ws'].
+      * rewrite Ht2. simpl. intros c n H. inversion H; subst; congruence.
+      * destruct Ht2 as (a2 & -> & Hs2 & Ew2 & Hc2). simpl bind. cbv iota beta.
+        destruct (find_name_match w2 SUBCOMMANDS_BREAK) as [c|sug] eqn:Ef.
+        -- apply find_name_match_inl in Ef. rewrite flatten_break in Ef. simpl.
+           exists 2%nat, (after_word (after_word line)).
+           split; [apply Name_break_sub; assumption|]. split; [exact Hs2|]. split; [lia|]. split; [exact Ew2|].
+           intros Hx; discriminate.
+        -- simpl. intros c n H. inversion H; subst; try congruence.
+           assert (Hx : find_name_match w2 SUBCOMMANDS_BREAK = inl c) by (apply find_name_match_inl; rewrite flatten_break; assumption).
+           congruence.
+    + simpl bind. cbv iota beta.
+      destruct (find_name_match w COMMANDS) as [c|sug] eqn:Ef.
+      * apply find_name_match_inl in Ef. rewrite flatten_commands in Ef.
+        exists 1%nat, (after_word line).
+        split; [apply Name_word; assumption|]. split; [exact Hs1|]. split; [exact Hc10|]. split; [exact Ew1|reflexivity].
+      * assert (Hno : forall c n, ~ NameSyn (w :: ws) c n).
+        { intros c n H. inversion H; subst; try congruence.
+          assert (Hx : find_name_match w COMMANDS = inl c) by (apply find_name_match_inl; rewrite flatten_commands; assumption).
+          congruence. }
+        destruct (leqb w (str "sudo")); exact Hno.
+Qed.
